@@ -2,8 +2,9 @@
    region-graph sweeps (C16-C18).  The float operations are a record argument supplied by ocaml/num/num_main.ml. *)
 From Coq Require Import ZArith List.
 From Coq Require Import extraction.ExtrOcamlBasic.
-Require Import PGM.Base.Num PGM.Model.Select PGM.Model.Ledger PGM.Model.Public.
+Require Import PGM.Base.Num PGM.Model.Select PGM.Model.Ledger PGM.Model.Public PGM.Model.Region.
 Extraction Language OCaml.
 Extraction "num_model.ml" Select.em_mechanism Select.em_mst Select.em_adagrid Select.em_mwem Select.laplace_scale Select.gaussian_scale Select.softmax Select.lse_probs
   Ledger.mst_events Ledger.mwem_events Ledger.adagrid_events Ledger.aim_events Ledger.total Ledger.cost
-  Public.emd_run.
+  Public.emd_run
+  Region.hps_run Region.gbp_run Region.lbp_run.
